@@ -18,7 +18,7 @@ RULE = ("random sights: focal plane in {FFP, SFP, LWIR}, horizontal != vertical 
         "taken from rows of a real trajectory; plus construction rejections; a case = (sight, query); non-trivial "
         "when h click != v click and both corrections are non-zero")
 MUST_OBSERVE = ["clicks_checked", "plane_FFP", "plane_SFP", "plane_LWIR", "from_trajectory_row", "linearity_checked",
-                "rejections_checked", "unequal_clicks", "units_switched_after_construction"]
+                "rejections_checked", "unequal_clicks", "units_switched_after_construction", "sights_recalibrated_after_use"]
 ASSUMPTIONS = ["click sizes and corrections converted to radians with R-SI (vf/refs_si.py)",
                "for SFP the product nominal x ratio x magnification is accepted in either linear reading (in radians "
                "or in the click's own unit); they differ only for the two tangent units, by < 1e-6"]
@@ -105,7 +105,17 @@ def check_case(ctx, case):
         reset_globals()
         return
 
-    sight = mk_sight(case)
+    if case.get("recalibrated_from"):
+        # the same Sight object first held other values and already answered this very query in that state
+        old = dict(case, sight=dict(case["sight"], **case["recalibrated_from"]))
+        sight = mk_sight(old)
+        if kind == "direct":
+            sight.get_adjustment(dist(case["target"]), ang(case["drop"]), ang(case["wind"]), case["mag"])
+        final = mk_sight(case)
+        sight.scale_factor, sight.h_click_size, sight.v_click_size = final.scale_factor, final.h_click_size, final.v_click_size
+        ctx.count("sights_recalibrated_after_use")
+    else:
+        sight = mk_sight(case)
     if case.get("switch_units_after_construction"):
         # the session's preferred units change between building the sight and asking for clicks
         PreferredUnits.adjustment = Unit[case["switch_units_after_construction"][0]]
@@ -198,8 +208,13 @@ def gen_case(rng):
         tgt = length(10, 2000)
         if tgt["bare"] and sight["scale"] and sight["scale"]["bare"]:
             tgt["unit"] = sight["scale"]["unit"]
+        recal = None
+        if rng.random() < 0.25 and sight["scale"] is not None:
+            recal = {"h": click(), "v": click(), "scale": length(25, 300)}
+            recal["h"]["bare"] = recal["v"]["bare"] = recal["scale"]["bare"] = False
         return {"kind": "direct", "sight": sight, "mag": mag, "target": tgt, "drop": corr(), "wind": corr(),
-                "k": rng.choice([-1.0, 2.0, 0.5, round(rng.uniform(-5, 5), 3)]), "switch_units_after_construction": switch}
+                "k": rng.choice([-1.0, 2.0, 0.5, round(rng.uniform(-5, 5), 3)]), "switch_units_after_construction": switch,
+                "recalibrated_from": recal}
     shot = gen.shot(rng, flat=True, custom=0.0, cant=False, wind_n=1)
     shot["winds"] = [[rng.uniform(3, 30), rng.choice([90.0, 270.0, rng.uniform(0, 360)]), None]]
     shot["look_deg"] = rng.choice([0.0, round(rng.uniform(-35, 35), 1)])
